@@ -287,7 +287,11 @@ class Evaluator(object):
                     val = self.eval(s['init'], env, guards, fn, chain)
                     guards = guards + self.implied_guards(s['init'], env)
                 if s.get('els') is not None:
-                    self.eval_block(s['els'], dict(env), guards + [Guard((s['sp'], 'let-else', 'letelse', '', None))], fn, chain)
+                    sv = Evaluator(self.fns, inline_depth=0).eval(s['init'], dict(env), [], None, [])
+                    extra = {'let': True, 'pat': s['pat'], 'ty': s['init'].get('ty'), 'subject': sv}
+                    cs = 'let %s = %s' % (H.pat_term(s['pat'], True), show(val))
+                    self.eval_block(s['els'], dict(env), guards + [Guard((s['sp'], 'else', 'if', cs, ('ctl', cs), extra))], fn, chain)
+                    guards = guards + [Guard((s['sp'], 'then', 'if', cs, ('ctl', cs), extra))]
                 pat = s['pat']
                 if pat.get('k') == 'Bind' and pat['id'] not in self.mutated and 'Mut' in pat.get('mode', '') and val is not None and val[0] == 'call' and len(val[2]) == 0:
                     # `let mut x = T::new()`: a fresh mutable object keeps its own identity
@@ -604,12 +608,13 @@ class Evaluator(object):
             if fl is not None:
                 pat, it, body = fl
                 itt = self.eval(it, env, guards, fn, chain)
+                itt, item = iter_view(itt)
                 benv = dict(env)
-                self.bind_pat(pat, ('call', 'iter_item', (itt,), ()), benv)
+                self.bind_pat(pat, item, benv)
                 g = guards + [Guard((node['sp'], 'for', 'loop', show(itt), itt))]
                 self.emit('for', itt, node, guards, fn, chain, extra=H.pat_term(pat, True))
                 self.eval(body, benv, g, fn, chain)
-                return ('ctl', 'for %s in %s' % (H.pat_term(pat, True), show(itt)))
+                return ('ctl', 'for _ in %s' % show(itt))
             sc = self.eval(node['scrut'], env, guards, fn, chain)
             scs = show(sc)
             self.emit('match', sc, node, guards, fn, chain)
@@ -695,6 +700,13 @@ class Evaluator(object):
             return args[0]
         if ndecl == 'std::string::String::new' and not args:
             return ('lit', '""')
+        if len(args) == 1 and npath.split('::')[-1] == 'key' and npath.startswith('std::collections::hash_map::'):
+            # the key of the entry obtained for key k is k
+            a = args[0]
+            if a is not None and a[0] == 'field' and a[2] in ('Vacant.0', 'Occupied.0'):
+                a = a[1]
+            if a is not None and a[0] == 'call' and a[1] == 'std::collections::HashMap::entry' and len(a[2]) == 2:
+                return a[2][1]
         gargs = ()
         if node.get('k') == 'MethodCall':
             gargs = tuple(node.get('gargs', []))
@@ -773,6 +785,14 @@ def guard_strs(g):
             out.append('%s(%s)' % ('if' if p is True else 'unless', s_) if isinstance(p, bool) else 'case(%s ~ %s)' % (s_, p))
         return out
     return []
+
+
+def iter_view(itt):
+    """(iterator term, item term): HashMap::keys(m) / values(m) are read as iter(m) with the item projected."""
+    if itt is not None and itt[0] == 'call' and itt[1] in ('std::collections::HashMap::keys', 'std::collections::HashMap::values') and len(itt[2]) == 1:
+        base = ('call', 'std::collections::HashMap::iter', itt[2], ())
+        return base, ('field', ('call', 'iter_item', (base,), ()), '0' if itt[1].endswith('keys') else '1')
+    return itt, ('call', 'iter_item', (itt,), ())
 
 
 def unconditional(e, events):
